@@ -13,7 +13,7 @@ REQUIRED = ["accepted_create_sound", "accepted_create_signed_by_did_key", "accep
             "controller_chain_bounded", "controller_cycle_refused", "deactivated_controller_rejected",
             "controllers_never_deactivated", "controller_versions_are_active", "validator_rules_partial", "validator_rules_embedded_witness", "removed_key_rejected", "removed_key_rejected_self_controlled",
             "validator_rules_sound_complete", "validator_rules_each_necessary",
-            "fact_network_validators", "fact_entry_id_checks", "fact_validator_scope", "fact_max_controller_depth",
+            "fact_network_validators", "fact_thumbprint_from_key_material", "fact_entry_id_checks", "fact_validator_scope", "fact_max_controller_depth",
             "fact_resolve_conditions", "fact_controller_skips", "fact_create_update_split", "fact_callback_steps",
             "fact_store_calls", "fact_update_steps", "fact_ambassador_controller_resolution", "fact_key_resolver"]
 
@@ -221,8 +221,9 @@ def run(ctx):
                         if cdid != doc["id"] and any(tx["signer"] in keys for _, keys in docs.get(cdid, [])):
                             okk = True
             if not okk:
-                report("accepted-update-by-unlisted-key", "update accepted although the signing key is not listed for capabilityInvocation "
-                       "in any stored version of the DID or of its controllers", i)
+                report("accepted-update-by-unlisted-key", "update accepted although the signing key is not listed for capabilityInvocation by a controller: "
+                       "neither by a self-controlling stored version of the DID (no controller entries / lists itself) nor by a stored "
+                       "version of a DID it names as controller", i)
     ctx.oblige("oracle:rejected-is-inert,accepted-is-authorised-and-well-formed(impl)", not oracle, json.dumps(dict(oracle)))
 
     # ---- correspondence model vs implementation
